@@ -237,7 +237,8 @@ def _rowwise_check(a):
                 on_outline = abs(extent / s - round(extent / s)) < 1e-6 or all(degenerate_row(p) for p in diff)
                 return False, {"why": "translating the lot does not translate the field rigidly", "n": [len(f1), len(f2)], "outline": pts, "translate": t, "rotation_deg": a.get("rot_deg", 0.0),
                                "spacing": s, "differing_boreholes": diff[:6],
-                               "signature": "translation/" + ("rows-that-meet-the-outline-degenerately-differ" if on_outline else "ordinary-rows-differ") + ("/count" if len(f1) != len(f2) else "/positions")}
+                               "signature": "translation/" + ("rows-that-meet-the-outline-degenerately-differ" if on_outline else "ordinary-rows-differ") + ("/count" if len(f1) != len(f2) else "/positions")
+                               + ("/with-no-go-zone" if nogo else "")}
         # the rotation sweep keeps the densest field
         if a.get("sweep"):
             from ghedesigner.rowwise import remove_duplicates
@@ -300,6 +301,7 @@ _RW_FIXED = [
     {"kind": "rect", "w": 100.0, "h": 60.0, "spacing": 10.0, "rot_deg": 0.0, "shift": [10.0, 10.0], "zone": 0.37, "perimeter": 0.8, "sweep": [15.0, -45.0, 45.0]},  # zones + perimeter + sweep history
     {"kind": "pts", "pts": [[0.0, 10.0], [70.0, 0.0], [110.0, 45.0], [60.0, 90.0], [5.0, 60.0]], "spacing": 10.0, "rot_deg": 15.0, "zone": 0.4, "perimeter": 0.6},
     {"kind": "regular", "spacing": 25.0, "rot_deg": 15.0, "shift": [33.3, 0.0], "n": 10, "r": 30.0, "phase": 0.3, "zone": 0.4, "sweep": [15.0, -45.0, 0.0], "perimeter": 0.8},  # D18 (fixed): no rotation yields a borehole
+    {"kind": "regular", "spacing": 25.0, "rot_deg": 60.0, "n": 10, "r": 30.0, "phase": 0.0, "zone": 0.25},  # recorded finding: with a zone, the lot touching the y-axis is filled differently from its translates
 ]
 
 
